@@ -64,6 +64,15 @@ def analyse_fd(chk, prog, f, closer_fns, fresh_ctors):
         return 0
     is_init = bool(re.search(r"_init(_|$)", f.name))
     stores = []
+    raw_frees = []
+    # locals that hold a socket object produced by a call (dup / new): they may own an open descriptor
+    sock_locals = set()
+    for x in walk(f.body):
+        if x.get("k") == "assign" and x.get("op") == "=":
+            l_, r_ = X.strip(x["ch"][0]), X.strip(x["ch"][1])
+            if l_ is not None and l_.get("k") == "ref" and l_.get("rk") == "local" and r_ is not None and r_.get("k") == "call" and \
+                    re.search(r"socket_t", (l_.get("t") or "") + (l_.get("tc") or "")) and re.search(r"spif_socket_(dup|new)", X.callee_name(r_) or ""):
+                sock_locals.add(l_["d"])
     dangling_at_ret = []
 
     def transfer(state, n, blk):
@@ -137,6 +146,12 @@ def analyse_fd(chk, prog, f, closer_fns, fresh_ctors):
         return frozenset([x for x in a if x[0] in ("closed", "fdcopy") and x in b] + [x for x in (a | b) if x[0] in ("dangling", "held")])
 
     def visit(state, n, blk):
+        if n.get("k") == "call" and own.release_kind(n) == "free" and n["ch"][1:]:
+            # the raw release of a socket object (SPIF_DEALLOC / free, not del): whatever descriptor it holds is lost with it
+            a0 = X.strip(n["ch"][1])
+            if a0 is not None and a0.get("k") == "ref" and a0.get("rk") == "local" and a0.get("d") in sock_locals:
+                p_ = "d%d->fd" % a0["d"]
+                raw_frees.append((n, a0, ("closed", p_) in state))
         if n.get("k") == "assign" and n.get("op") == "=":
             p = fd_path(n["ch"][0])
             if p is not None:
@@ -162,6 +177,13 @@ def analyse_fd(chk, prog, f, closer_fns, fresh_ctors):
                           ("%s overwrites the field (%s) after saving the old descriptor in a local, and returns at %s without closing "
                            "that local: the descriptor is leaked" % (f.name, X.render(n)[:50], f.loc(at_ret))),
                    proof="dominated by close()/closer call, a test fd < 0, or the object is freshly constructed")
+    for n, a0, ok in raw_frees:
+        cnt += 1
+        chk.ob("F1", f.name, "object-freed-with-descriptor:" + canon(f, n)[:30], ok, loc=f.loc(n),
+               detail="%s releases the socket object `%s` with a plain free while the descriptor it holds may still be open (it came "
+                      "from a dup / constructor call and nothing on this path closed it): the descriptor is leaked - the object is "
+                      "to be given to the class's del, which closes it" % (f.name, a0.get("n")),
+               proof="the object's descriptor is known closed (or never opened) at the free")
     seen = set()
     for n, p in dangling_at_ret:
         if p in seen:
